@@ -7,7 +7,7 @@
   truncates (`push_back(uint16_t)` into a `vector<uint8_t>`).  `uint16_t` registers wrap
   (`% 65536`).  Outcomes the C++ can reach besides returning: `vector::at` on an empty vector
   (`atEmpty`, a `std::out_of_range` that nothing catches) and `std::stack::top()` on an empty
-  stack (`stackEmpty`, undefined behaviour) — both explicit so that their absence can be stated.
+  stack (`stackEmpty`: undefined behaviour until repository fix 3e0ed67, an InputError since) — both explicit so that their absence can be stated.
 -/
 import Ctrmml.Generated.Tables
 namespace Ctrmml.Mds
